@@ -32,12 +32,58 @@ def path_census(cache):
     return probs
 
 
+SPELLINGS = ["canonical", "canonical", "trailing-slash", "dot-inside", "dotdot", "symlink", "relative", "relative-dot",
+             "double-slash"]
+
+
+def spell(rng, cache, kind):
+    """Another way of naming the directory `cache` (absolute, not yet existing is fine except for 'symlink').
+    Returns (path to hand to the library, directory to chdir to first or None)."""
+    parent, name = os.path.split(cache)
+    if kind == "trailing-slash":
+        return cache + "/", None
+    if kind == "dot-inside":
+        return os.path.join(parent, ".", name, "."), None
+    if kind == "double-slash":
+        return parent + "//" + name, None
+    if kind == "dotdot":
+        os.makedirs(os.path.join(parent, "side"), exist_ok=True)
+        return os.path.join(parent, "side", "..", name), None
+    if kind == "symlink":
+        os.makedirs(cache, exist_ok=True)
+        link = os.path.join(parent, "link-to-" + name)
+        if not os.path.islink(link):
+            os.symlink(cache, link)
+        return link, None
+    if kind == "relative":
+        return name, parent
+    if kind == "relative-dot":
+        return "./" + name, parent
+    return cache, None
+
+
+def respell(rng, cache, steps, kind):
+    """Give every step the spelled cache path; relative spellings are bracketed by chdir steps (per mode batch)."""
+    sp, cwd = spell(rng, cache, kind)
+    out = []
+    for st in steps:
+        st = dict(st, req=dict(st["req"], cache=sp))
+        if cwd:
+            out.append({"mode": st["mode"], "req": {"op": "chdir", "dir": cwd}, "harness": True})
+        out.append(st)
+        if cwd:
+            out.append({"mode": st["mode"], "req": {"op": "chdir", "dir": "/"}, "harness": True})
+    return out
+
+
 def run(ctx):
     rng = ctx.rng
     modes = drv.QUICK_MODES if ctx.quick else drv.ALL_MODES
     nc = 250 if ctx.quick else 4000
     ctx.rule = ("cache = 5-25 operations (writes with all metadata shapes / times / raw metadata / algorithms, "
-                "removals, re-writes) over hostile and random keys. Direction A: the library writes (each mode), "
+                "removals, re-writes) over hostile and random keys. Direction A: the library writes (each mode; the cache "
+                "directory named canonically, with a trailing slash, ./, x/../, //, through a symlink or relative to the "
+                "working directory), "
                 "then the reference implementation decodes the tree: path census, byte-level record grammar, "
                 "lookups, listing and content compared with the library's own answers and with the model. "
                 "Direction B: the reference implementation writes the cache (4 different legal JSON spellings), the "
@@ -68,16 +114,22 @@ def run(ctx):
                 opts["time"] = str(gen.time_value(rng))
             steps.append({"mode": mode, "req": {"op": "writer", "cache": cache, "key": k, "opts": opts,
                                                 "chunks": [ctx.data(data)]}, "data": data})
-        resps = hist.execute(ctx, steps)
+        # the directory may be NAMED in several ways (trailing slash, ./, x/../, symlink, relative to the working
+        # directory): the files must be in the same place
+        spelling = rng.choice(SPELLINGS)
+        ctx.count(f"cache_path_spelling[{spelling}]")
+        xsteps = respell(rng, cache, steps, spelling)
+        xresps = hist.execute(ctx, xsteps)
+        resps = [r for st, r in zip(xsteps, xresps) if not st.get("harness")]
         model = Model()
         bad = False
         for s, r in zip(steps, resps):
             probs, _ = hist.judge(model, s, r)
             if probs and not bad:
                 bad = True
-                ctx.violation(f"A|{mode}|library-op", f"direction A: {probs[0]}",
-                              {"steps": [[x["mode"], x["req"]] for x in steps]})
-        det = {"steps": [[x["mode"], x["req"]] for x in steps]}
+                ctx.violation(f"A|{mode}|library-op|{spelling}", f"direction A (cache path spelled {spelling}): {probs[0]}",
+                              {"steps": [[x["mode"], x["req"]] for x in xsteps]})
+        det = {"steps": [[x["mode"], x["req"]] for x in xsteps], "cache_path_spelling": spelling}
         # path census
         for p in path_census(cache):
             ctx.violation(f"A|{mode}|path-census", f"direction A: {p}", det)
@@ -134,7 +186,7 @@ def run(ctx):
                               f"{k!r} (verified={verified}), expected {len(want)}", det)
             if not ev.is_ok(libr) or drv.data_bytes(libr["ok"]["data"]) != want:
                 ctx.violation(f"A|{mode}|library-content", f"library read of {k!r}: {ev.brief(libr)}", det)
-        ctx.case(distinct_key=("A", mode, min(nrecords, 30)),
+        ctx.case(distinct_key=("A", mode, min(nrecords, 30), spelling),
                  sample={"direction": "library->reference", "mode": mode, "keys": keys, "records": nrecords} if c % 20 == 0 else None)
         for k in keys:
             ctx.distinct.add(("key", k))
